@@ -327,10 +327,13 @@ def gen(rng, tier):
             else:
                 pix.append([rng.uniform(x0, x1) + rng.choice([-1, 1]) * rng.uniform(2000, 60000), rng.uniform(y0, y1) + rng.choice([-1, 1]) * rng.uniform(2000, 60000)])
                 where.append("far")
-        if rng.random() < 0.25:
+        if rng.random() < 0.25 or _ % 10 == 7:
             # field straddling the RA = 0/360 meridian: points within about a pixel of it (the longitude difference must be wrapped
             # symmetrically on both sides)
             p["crval"][0] = 0.0
+            if rng.random() < 0.5 or _ % 10 == 7:
+                # ... and the meridian through the centre of the bounding box (where the solver samples the pixel scale)
+                p["crpix"] = [(x0 + x1) / 2 + rng.choice([0.0, 0.25, -0.25]), (y0 + y1) / 2 + rng.choice([0.0, 3.0])]
             for _m in range(80):
                 xm = p["crpix"][0] + rng.uniform(-3.0, 3.0)
                 ym = rng.uniform(y0 + 1, y1 - 1)
